@@ -100,8 +100,8 @@ Section Proofs.
     destruct o; cbn -[string_op force cmp_forced]; auto.
     - destruct (string_op inferrer ofmt a), (string_op inferrer ofmt b); cbn in *; auto.
     - destruct (string_op inferrer ofmt b), (string_op inferrer ofmt a); cbn in *; auto.
-    - destruct (string_op inferrer ofmt a), (string_op inferrer ofmt b); cbn -[force] in *; split; now apply inv_force.
-    - destruct (string_op inferrer ofmt a), (string_op inferrer ofmt b); cbn -[force] in *; split; now apply inv_force.
+    - destruct (string_op inferrer ofmt a), (string_op inferrer ofmt b); cbn in *; auto.
+    - destruct (string_op inferrer ofmt a), (string_op inferrer ofmt b); cbn in *; auto.
     - destruct (string_op inferrer ofmt a), (string_op inferrer ofmt b); cbn in *; auto.
     - destruct (string_op inferrer ofmt a), (string_op inferrer ofmt b); cbn in *; auto.
     - destruct strings; cbn -[string_op force]; [|auto]. split; now apply inv_string_op.
@@ -201,8 +201,8 @@ Section Proofs.
     destruct o; cbn -[string_op force cmp_forced]; auto.
     - destruct (string_op inferrer ofmt a), (string_op inferrer ofmt b); cbn in *; auto.
     - destruct (string_op inferrer ofmt b), (string_op inferrer ofmt a); cbn in *; auto.
-    - destruct (string_op inferrer ofmt a), (string_op inferrer ofmt b); cbn -[force] in *; split; now apply reach_forced.
-    - destruct (string_op inferrer ofmt a), (string_op inferrer ofmt b); cbn -[force] in *; split; now apply reach_forced.
+    - destruct (string_op inferrer ofmt a), (string_op inferrer ofmt b); cbn in *; auto.
+    - destruct (string_op inferrer ofmt a), (string_op inferrer ofmt b); cbn in *; auto.
     - destruct (string_op inferrer ofmt a), (string_op inferrer ofmt b); cbn in *; auto.
     - destruct (string_op inferrer ofmt a), (string_op inferrer ofmt b); cbn in *; auto.
     - destruct strings; cbn -[string_op force]; [|auto]. split; now apply reach_string_op.
